@@ -221,6 +221,16 @@ OpVerdict(c, op, a, params, raised, rk, rv, w) ==
                             LET E == CHOOSE B \in Supp(a[1]) : TRUE IN SMul(CMul(a[1][E], a[1][E]), MVPss(c)))
             THEN "blade_wedge_its_hodge_dual_is_not_the_pseudoscalar"
        ELSE "ok"
+  ELSE IF op = "expf" THEN
+       \* x.exp(cosh = f, sinhc = g, sqrt = h) with the FORMAL functions h(s) = s, f(l) = l + 1, g(l) = 2 l - 3:
+       \* the algebraic skeleton of MultiVector.exp,  x * g(h(s)) + f(h(s))  with  s = <x x>_0,  defined iff x x is a scalar
+       LET xx == GP(c, a[1], a[1])
+           s == xx[0]
+           want == Add(SMul(CSub(CScale(2, s), CScale(3, COne)), a[1]), MVScalar(c.d, CAdd(s, COne)))
+       IN  IF ~(Supp(xx) \subseteq {0}) THEN (IF raised = "NotImplementedError" THEN "ok" ELSE "exp_of_an_element_with_non_scalar_square_must_raise_NotImplementedError")
+           ELSE IF raised # "" THEN "exp_raised_for_an_element_with_scalar_square"
+           ELSE IF ~StoredOK(c, rk, rv) THEN "result_not_well_formed"
+           ELSE IF SameElement(FromKV(c.d, rk, rv), want) THEN "ok" ELSE "exp_is_not_x_sinhc_plus_cosh_of_the_root_of_the_square"
   ELSE IF op = "polarity" THEN
        IF PssSquare(c) = 0 THEN (IF raised = "ZeroDivisionError" THEN "ok" ELSE "degenerate_polarity_must_raise_ZeroDivisionError")
        ELSE IF raised # "" THEN "polarity_raised_on_nondegenerate_metric"
